@@ -157,6 +157,8 @@ var counter = (function(){ var n = 0; return { inc: function(){ return ++n }, ge
 $probes.push(counter.get);
 var state = 1;
 var acc = { get x(){ return state }, set x(v){ state = v }, plain: 1 };
+var setOnly = Object.defineProperty({ hits: 0, set lit(v){ this.hits += v } }, "viaDefine", { set: function(v){ this.hits += 2 * v }, enumerable: true, configurable: true });
+var getOnly = Object.defineProperty({ get g(){ return state + 1 } }, "viaDefine", { get: function(){ return state + 2 }, configurable: true });
 $probes.push(function(){ return state });
 var frozen = Object.freeze({ a: 1, inner: { b: 2 } });
 var sealed = Object.seal({ x: 1 });
@@ -209,6 +211,7 @@ var mutations = []string{
 	"Object.defineProperty(Object.prototype, 'acc2', {get: function(){ return 1 }, configurable: true});", "Function.prototype.fp = 1;", "JSON.extra = [1];", "Error.prototype.name = 'Renamed';",
 	"delete eval;", "eval = function(){ return 'fake' };", "var keepEval = eval; delete eval; log(keepEval('2+2'));", "Function.prototype.call = function(){ return 'patched' };", "delete Function.prototype.bind;",
 	"$probes.push(function(){ return 123 });", "log('mutated', state);", "counter = null;", "acc = {replaced: true};",
+	"setOnly.lit = 1; setOnly.viaDefine = 2; log(setOnly.hits, setOnly.lit, getOnly.g, getOnly.viaDefine);", "Object.defineProperty(setOnly, 'lit', {get: function(){ return 1 }}); getOnly.g = 5; log(setOnly.lit, getOnly.g);", "Object.defineProperty(getOnly, 'viaDefine', {set: function(v){ state = v }}); getOnly.viaDefine = 7;",
 }
 
 func generate(r *gen.Rand) Input {
